@@ -262,8 +262,8 @@ def _run_het(case):
                 El[i] = float(libx.het_link(kind, np.array(mh[i])))
             else:
                 El[i] = _E_link(kind, float(mh[i]), float(vh[i]))
-                if vh[i] < 1e-6 * (1.0 + mh[i] ** 2):
-                    continue  # nearly deterministic h: adaptive quadrature of the narrow peak is less accurate than the closed form
+                if vh[i] < 1e-6 * (1.0 + mh[i] ** 2) or vh[i] > 25.0:
+                    continue  # nearly deterministic h, or exponentially tilted mass outside the quadrature window: adaptive quadrature of the narrow peak is less accurate than the closed form
                 q = _E_link_quad(kind, float(mh[i]), float(vh[i]))
                 if abs(q - El[i]) > 1e-9 * (1 + abs(El[i])):
                     raise AssertionError(f"closed form and quadrature of E link disagree: {El[i]} vs {q}")  # oracle error -> harness
